@@ -315,6 +315,13 @@ Proof.
   inversion Hh; subst. destruct (N.leb_spec (rs x) (rs y)); [reflexivity|unfold lek in *; lia].
 Qed.
 
+Lemma stable_sort_spec_lemma l :
+  Sorted lek (stable_sort l) /\ Permutation (stable_sort l) l /\
+  forall k, filter (fun r => rs r =? k) (stable_sort l) = filter (fun r => rs r =? k) l.
+Proof.
+  split; [apply stable_sort_sorted|]. split; [apply stable_sort_perm|]. intros k. apply stable_sort_stable.
+Qed.
+
 (* ------------------------------------------------------------------ insert_region *)
 Lemma sorted_lek_disjoint_before L : Forall region_ok L -> Sorted lek L -> ForallOrdPairs disjoint L ->
   Sorted before L.
